@@ -73,8 +73,11 @@ def fact_obligations(ctx):
     reads = list(f.get("engineReads", []))
     missing_all = []
     for site in ("convCached", "convMonitored"):
-        keyed = {kf["name"] for kf in f.get("keyFields", [])}
-        image = {opt for (kfn, opt) in f.get(site, []) if kfn in keyed}
+        keyed = {kf["name"] for kf in (f.get("keyFields") or [])}
+        if f.get(site) is None:   # the conversion at this site was not recognised (e.g. moved into a helper)
+            ctx.oblige("fact:key_covers_reads[%s]" % site, "translator", False, "conversion site %s not recognised by the translator" % site)
+            continue
+        image = {opt for (kfn, opt) in f.get(site) if kfn in keyed}
         missing = [r for r in reads if r not in image]
         ctx.oblige("fact:key_covers_reads[%s]" % site, "translator", not missing,
                    "engine reads %s; not carried by the key through %s: %s" % (reads, site, missing or "none"))
